@@ -1,5 +1,6 @@
 import OH.Props.C04
 import OH.Props.C04P
+import OH.Props.C04E
 import OH.Props.C02B
 #print axioms OH.Props.C04.C04_iter_total_partial
 #print axioms OH.Props.C04.C04_state_total_partial
@@ -12,6 +13,10 @@ import OH.Props.C02B
 #print axioms OH.Props.C04P.C04_parse_never_panics
 #print axioms OH.Props.C04P.C04_parseChars_never_panics
 #print axioms OH.Props.C04P.C04_parse_ok_or_err
+#print axioms OH.Props.C04E.C04_parsed_schedule_total
+#print axioms OH.Props.C04E.C04_parsed_print_total
+#print axioms OH.Props.C04E.C04_parsed_normalize_total
+#print axioms OH.Props.C04E.C04_parsed_iteration_total
 #print axioms OH.Props.C02B.schedOf_of_scheduleAt
 #print axioms OH.Props.C02B.kinds_of_dayKind
 #print axioms OH.Props.C02B.outside_closed
